@@ -72,6 +72,8 @@ def minimise(pool, mod, spec, res, tier, budget=160):
     if not hasattr(mod, "shrink"):
         return spec, res, 0
     target = res["oracle"]
+    if hasattr(mod, "minimise_budget"):
+        budget = mod.minimise_budget(spec)
     tried = 0
     cur, cur_res = spec, res
     improved = True
